@@ -15,6 +15,8 @@ import Driver.Util
 * Ty       `s` | `f <hex ext>` | `a <extraDims> <Ty>` | `m <Ty>` | `t <n> {<hex id> <hex outName> <Ty>}`
 * value    `n` | `l <hex>` | `q <hex>` | `A <n> {J}` | `O <n> {<hex key> J}`
 * fs       `<n> {<hex path> (F<content>|D|La<hex path>|Lr<hex rel>)}`
+In the `m` modes the per-key directory is `joinKey outs key` (= `path.Join`).
+`C13.keydirs <outsPath> <n> {<hex key>}`: the per-key directories and whether the key set is separable.
 Reply: `<hex of the rewritten JSON text> <TAB> <entries path=kind joined by ,>`.
 Tokens are separated by single spaces.
 -/
@@ -199,6 +201,19 @@ def handle (op : String) (args : List String) : Option String :=
     match parse (emit v) with
     | some v' => pure ("some " ++ strHex (renderJ v'))
     | none => pure "none"
+  | "keydirs", [outs, keys] => do
+    -- fork keys of a top-level call mapped over a typed map: `<n> {<hex key>}` ↦
+    -- `<separable> <TAB> <hex dir>,…` and per key `legalName`
+    let outs := pathOf (← hexStr outs)
+    let ks ← runP (do
+      let n ← pNat
+      let mut ks := []
+      for _ in [0:n] do
+        let k ← pStr
+        ks := k :: ks
+      pure ks.reverse) keys
+    pure (boolStr (keysSeparable outs ks) ++ "\t" ++
+      ",".intercalate (ks.map fun k => strHex (renderPath (joinKey outs k)) ++ ":" ++ boolStr (legalName k)))
   | "dimaware", [] => pure (boolStr Gen.postProcessDimAware)
   | "nodup", [members] => do
     -- the compile-time duplicate-output-name check on one member list
